@@ -108,6 +108,14 @@ Definition lemit (sp : span) (bytes : list N) : L unit := fun s =>
       end
   end.
 
+(* replay of the write log of one segment (oldest first) *)
+Fixpoint seg_writes (name : ident) (log : list wr) : list (Z * list N) :=      (* log newest first -> newest first *)
+  match log with
+  | [] => []
+  | Write n pc bytes :: r => if ident_eqb n name then (pc, bytes) :: seg_writes name r else seg_writes name r
+  | Recreate n :: r => if ident_eqb n name then [] else seg_writes name r
+  end.
+
 Section Layout.
 Variable m : fsyms.
 
@@ -207,9 +215,16 @@ Definition define_seg (idspan : span) (l : list cfgpair) : L unit :=
                      | Some e => v <~ leval_i64 e ;; lret (match v with Some t => as_usize t | None => start end)
                      | None => lret start
                      end) ;;
+          (* statements that were laid out into this segment before its definition would be lost: an error (code 5) *)
           lmod (fun s => mkLS (l_scope s) (match l_seg s with None => Some name | c => c end)
                               (ss_put (l_segs s) name (mkSS start start target))
-                              (Recreate name :: l_log s) (l_macro s) (l_bad s) (l_addrs s))
+                              (Recreate name :: l_log s) (l_macro s)
+                              (match seg_writes name (l_log s) with
+                               | [] => l_bad s
+                               | ws => if existsb (fun w => match snd w with [] => false | _ => true end) ws
+                                       then LError 5 idspan :: l_bad s else l_bad s
+                               end)
+                              (l_addrs s))
       end
   end.
 
@@ -388,14 +403,6 @@ Fixpoint collect (fuel : nat) (scope : ipath) (ts : list token) : mtable :=
             end
         | _ => []
         end) ts
-  end.
-
-(* replay of the write log of one segment (oldest first) *)
-Fixpoint seg_writes (name : ident) (log : list wr) : list (Z * list N) :=      (* log newest first -> newest first *)
-  match log with
-  | [] => []
-  | Write n pc bytes :: r => if ident_eqb n name then (pc, bytes) :: seg_writes name r else seg_writes name r
-  | Recreate n :: r => if ident_eqb n name then [] else seg_writes name r
   end.
 
 Record layout_result := mkLR {
